@@ -481,8 +481,10 @@ def execute(sc, tape=None):
                         first_priv is not None and idx("load_cert_chain") > first_priv)):
                     viol = V("keys-before-privilege-drop", "TLS keys must be loaded before any privilege change")
                 elif opts["chroot"]:
-                    if names.count("chroot") != 1 or calls[idx("chroot")][1] != docroot:
-                        viol = V("chroot-once", "chroot(%r) expected exactly once" % docroot)
+                    if names.count("chroot") != 1 or m.root_real != os.path.normpath(docroot):
+                        # (the argument may be relative - chdir(root); chroot(".") - what counts is where
+                        # the process's root ends up)
+                        viol = V("chroot-once", "one chroot into %r expected; root is %r" % (docroot, m.root_real))
                     elif idx("chroot") != first_priv:
                         viol = V("chroot-first", "chroot must be the first privilege change")
                     elif srv.config.get("pygopherd", "root") != "/":
